@@ -223,8 +223,28 @@ def _hash_files(paths):
     return h.hexdigest()
 
 
+_DIRECT_DEPS = {}     # (file, mtime) -> direct .v dependencies, per process
+
+
+def _direct_deps(v):
+    try:
+        key = (v, os.path.getmtime(os.path.join(COQ, v)))
+    except OSError:
+        key = (v, None)
+    if key not in _DIRECT_DEPS:
+        rc, out = sh("coqdep -Q theories Cspuz %s" % v, cwd=COQ, timeout=60)
+        deps = []
+        m = re.search(r"\.vo[^:]*:\s*(.*)", out, flags=re.S)
+        if m:
+            for tok in m.group(1).split():
+                if tok.endswith(".vo") and tok.startswith("theories/"):
+                    deps.append(tok[:-1])
+        _DIRECT_DEPS[key] = deps
+    return _DIRECT_DEPS[key]
+
+
 def coq_deps_of(vfile_rel):
-    """transitive .v dependencies (within theories/) of a .v file, via coqdep."""
+    """transitive .v dependencies (within theories/) of a .v file, via coqdep (one coqdep call per file and process)."""
     ensure_makefile()
     seen, todo = set(), [vfile_rel]
     while todo:
@@ -232,12 +252,7 @@ def coq_deps_of(vfile_rel):
         if v in seen:
             continue
         seen.add(v)
-        rc, out = sh("coqdep -Q theories Cspuz %s" % v, cwd=COQ, timeout=60)
-        m = re.search(r"\.vo[^:]*:\s*(.*)", out, flags=re.S)
-        if m:
-            for tok in m.group(1).split():
-                if tok.endswith(".vo") and tok.startswith("theories/"):
-                    todo.append(tok[:-1])
+        todo += _direct_deps(v)
     return sorted(seen)
 
 
